@@ -156,6 +156,7 @@ type hist struct {
 	hotRows    map[int]bool // rows committed while a sync was running
 	hotChecked map[int]bool
 	hook       *hookHandler
+	nRestore   int
 }
 
 func openHist(tmp string, h HCase) (*hist, error) {
@@ -334,7 +335,17 @@ func canonPlan(infos []*ltx.FileInfo, err error) (string, int) {
 	return "ok " + strings.Join(parts, ","), int(infos[len(infos)-1].MaxTXID)
 }
 
-func (x *hist) restore(name string, txid int, ts int) ([]byte, error) {
+// zones: the same instant T is handed to Replica.Restore expressed in different locations; the
+// oracle compares instants only (UnixMilli), never wall-clock fields.
+var zones = []*time.Location{
+	time.FixedZone("+02:00", 2*3600),
+	time.FixedZone("-04:00", -4*3600),
+	time.UTC,
+	time.FixedZone("+05:45", 5*3600+45*60),
+	time.Local, // main() sets the process-local zone to a non-UTC one
+}
+
+func (x *hist) restore(name string, txid int, ts int, loc *time.Location) ([]byte, error) {
 	out := filepath.Join(x.dir, name)
 	os.Remove(out)
 	opt := litestream.NewRestoreOptions()
@@ -343,7 +354,10 @@ func (x *hist) restore(name string, txid int, ts int) ([]byte, error) {
 		opt.TXID = ltx.TXID(txid)
 	}
 	if ts >= 0 {
-		opt.Timestamp = time.UnixMilli(x.base + int64(ts)).UTC()
+		opt.Timestamp = time.UnixMilli(x.base + int64(ts)).In(loc)
+		if opt.Timestamp.UnixMilli() != x.base+int64(ts) {
+			hx.Fatal(fmt.Errorf("zone conversion changed the instant"))
+		}
 	}
 	if err := x.db.Replica.Restore(context.Background(), opt); err != nil {
 		return nil, err
@@ -468,9 +482,9 @@ func (x *hist) probe(drv *hx.Driver, res *hx.Result, rnd *hx.Rand, step int) (ki
 	}
 	sort.Ints(Ts)
 	prevE, prevT := 0, 0
-	restoreBudget, hotBudget := 5, 16
+	restoreBudget, hotBudget, failBudget := 5, 16, 2
 	for _, T := range Ts {
-		ts := time.UnixMilli(x.base + int64(T)).UTC()
+		ts := time.UnixMilli(x.base + int64(T)).In(zones[T%len(zones)])
 		infos, perr := litestream.CalcRestorePlan(ctx, x.fc, 0, ts, quiet)
 		impl, e := canonPlan(infos, perr)
 		line := fmt.Sprintf("plan T=0 TS=%d F=%s", T, listing)
@@ -522,9 +536,13 @@ func (x *hist) probe(drv *hx.Driver, res *hx.Result, rnd *hx.Rand, step int) (ki
 			} else {
 				restoreBudget--
 			}
-			got, gerr := x.restore("ts.db", 0, T)
+			x.nRestore++
+			loc := zones[x.nRestore%len(zones)]
+			zname := time.UnixMilli(x.base + int64(T)).In(loc).Format("-07:00")
+			count("restore-zone" + zname)
+			got, gerr := x.restore("ts.db", 0, T, loc)
 			if gerr != nil {
-				return "violation", "C15/restore-fails", fmt.Sprintf("step %d: plan for T=%d is %s but Restore(Timestamp) fails: %v", step, T, impl, gerr)
+				return "violation", "C15/restore-fails", fmt.Sprintf("step %d: plan for T=%d is %s but Restore(Timestamp=T expressed in zone %s) fails: %v; listing %s", step, T, impl, zname, gerr, listing)
 			}
 			// content oracle: the newest app row in the restored database must not belong to a
 			// transaction whose L0 file is stamped at or after T
@@ -533,21 +551,31 @@ func (x *hist) probe(drv *hx.Driver, res *hx.Result, rnd *hx.Rand, step int) (ki
 			} else if lo, ok := x.rowLo[m]; ok {
 				count("restore-content-checked")
 				if c, ok := x.cs[m]; ok && c >= T {
-					return "violation", "C15/future-commit", fmt.Sprintf("step %d: Restore(Timestamp=%d) returns app row %d whose commit was only issued at %d (>= T); plan %s; listing %s", step, T, m, c, impl, listing)
+					return "violation", "C15/future-commit", fmt.Sprintf("step %d: Restore(Timestamp=%d, zone %s) returns app row %d whose commit was only issued at %d (>= T); plan %s; listing %s", step, T, zname, m, c, impl, listing)
 				}
 				if tn, ok := x.t[lo]; ok && tn >= T {
-					return "violation", "C15/future-row", fmt.Sprintf("step %d: Restore(Timestamp=%d) returns app row %d, written in TXID >= %d whose L0 file is stamped %d (>= T); plan %s; listing %s", step, T, m, lo, tn, impl, listing)
+					return "violation", "C15/future-row", fmt.Sprintf("step %d: Restore(Timestamp=%d, zone %s) returns app row %d, written in TXID >= %d whose L0 file is stamped %d (>= T); plan %s; listing %s", step, T, zname, m, lo, tn, impl, listing)
 				}
 			}
-			want, werr := x.restore("tx.db", e, -1)
+			want, werr := x.restore("tx.db", e, -1, time.UTC)
 			if werr != nil {
 				count("restore-txid-unavailable")
 			} else {
 				count("restore-compared")
 				if !bytes.Equal(got, want) {
-					return "violation", "C15/restore-differs", fmt.Sprintf("step %d: Restore(Timestamp=%d) differs from Restore(TXID=%d)", step, T, e)
+					return "violation", "C15/restore-differs", fmt.Sprintf("step %d: Restore(Timestamp=%d, zone %s) differs from Restore(TXID=%d), the state the plan for that instant (%s) ends at; listing %s", step, T, zname, e, impl, listing)
 				}
 			}
+		}
+		if perr != nil && T <= x.t[1] && failBudget > 0 && rnd.Chance(30) {
+			failBudget--
+			x.nRestore++
+			loc := zones[x.nRestore%len(zones)]
+			zname := time.UnixMilli(x.base + int64(T)).In(loc).Format("-07:00")
+			if _, gerr := x.restore("ts.db", 0, T, loc); gerr == nil {
+				return "violation", "C15/before-first-restores", fmt.Sprintf("step %d: T=%d (zone %s) is not after the first replication time %d, CalcRestorePlan fails, yet Restore(Timestamp) succeeds; listing %s", step, T, zname, x.t[1], listing)
+			}
+			count("restore-before-first-fails")
 		}
 		prevE, prevT = e, T
 	}
@@ -564,7 +592,7 @@ func (x *hist) probe(drv *hx.Driver, res *hx.Result, rnd *hx.Rand, step int) (ki
 		if !ok {
 			continue
 		}
-		img, rerr := x.restore("hot.db", n, -1)
+		img, rerr := x.restore("hot.db", n, -1, time.UTC)
 		if rerr != nil {
 			continue
 		}
@@ -813,6 +841,9 @@ type payload struct {
 }
 
 func main() {
+	// the process-local zone is made non-UTC so that time.Local-expressed instants are exercised too
+	time.Local = time.FixedZone("verif-local", -(9*3600 + 30*60))
+	zones[len(zones)-1] = time.Local
 	o := hx.ParseFlags("C15")
 	slog.SetDefault(quiet)
 	tmp, err := os.MkdirTemp("", "c15-")
@@ -851,7 +882,7 @@ func main() {
 
 	res := hx.NewResult(o, "c15")
 	res.Rule = "one case = one (real listing, timestamp T) probe of CalcRestorePlan; counts as non-trivial when a plan is returned (distinct by listing and T)"
-	nHist, hLen, nRace, rLen := 26, 28, 8, 4
+	nHist, hLen, nRace, rLen := 22, 28, 8, 4
 	if o.Tier == "thorough" {
 		nHist, hLen, nRace, rLen = 300, 45, 40, 6
 	}
@@ -924,7 +955,7 @@ func main() {
 		}
 		report(k, s, what, h)
 	}
-	res.Notes = append(res.Notes, "real SQLite+DB+Store histories (sync/compact/snapshot, with and without retention at 1 ms thresholds); ledger = header timestamp of each L0 file; race stream: DB.Snapshot() called 0-3 ms after a DB.Sync of a 1-3 MB commit was started in another goroutine; racecommit: application commits while DB.Sync scans a 2-4 MB unsynced WAL (from DB.sync's own debug record, or free-running), commit instants recorded per row; structural oracles (file stamped >= every contained TXID's L0 stamp, L0 stamp >= commit instant of its rows); content oracle (newest app row of Restore(Timestamp=T) belongs to a TXID stamped < T); probes at t-1,t,t+1 and midpoints of every recorded header time and mtime")
+	res.Notes = append(res.Notes, "real SQLite+DB+Store histories (sync/compact/snapshot, with and without retention at 1 ms thresholds); ledger = header timestamp of each L0 file; race stream: DB.Snapshot() called 0-3 ms after a DB.Sync of a 1-3 MB commit was started in another goroutine; racecommit: application commits while DB.Sync scans a 2-4 MB unsynced WAL (from DB.sync's own debug record, or free-running), commit instants recorded per row; every T is handed to Replica.Restore / CalcRestorePlan as the same instant expressed in +02:00, -04:00, UTC, +05:45 and a non-UTC process-local zone; structural oracles (file stamped >= every contained TXID's L0 stamp, L0 stamp >= commit instant of its rows); content oracle (newest app row of Restore(Timestamp=T) belongs to a TXID stamped < T); probes at t-1,t,t+1 and midpoints of every recorded header time and mtime")
 	if err := res.Write(o.Out); err != nil {
 		hx.Fatal(err)
 	}
